@@ -169,6 +169,10 @@ def describe(o, ctx):
             return ('opaque', [sp[1]], [], True)
         return describe(sp, ctx)
     t = type(o)
+    if t.__module__ == 'nutils_poly' and t.__name__ == 'MulVar':
+        # external extension type: documented hash is sha1 of its qualified member name
+        name = next(n for n in ('Left', 'Right', 'Both') if getattr(t, n) == o)
+        return ('opaque', [('MulVar.' + name).encode()], [], True)
     if isinstance(o, T.Immutable):
         return ('immutable', [modqual(t), t._version], list(o._args), True)
     if isinstance(o, T.DataClass):
@@ -526,6 +530,47 @@ def variants(v, rng, ctx):
     return [o for o in out if o is not None]
 
 
+def respell(v, rng, depth=3):
+    """another construction route for the *same* value (equal key): dict/set insertion order, numpy scalars, keyword
+    arguments, Fortran-order / strided array views, shuffled multiset operands; returns None when there is no other route"""
+    t = type(v)
+    sub = (lambda x: (lambda y: x if y is None else y)(respell(x, rng, depth - 1))) if depth > 0 else (lambda x: x)
+    if t is bool: return numpy.bool_(v)
+    if t is int: return numpy.int64(v) if -2**63 <= v < 2**63 and rng.random() < .7 else (numpy.int16(v) if -2**15 <= v < 2**15 else None)
+    if t is float: return numpy.float64(v)
+    if t is complex: return numpy.complex128(v)
+    if isinstance(v, (numpy.integer,)): return int(v)
+    if isinstance(v, numpy.floating) and v.dtype.itemsize <= 8: return float(v)
+    if t is tuple: return tuple(sub(x) for x in v)
+    if t is list: return [sub(x) for x in v]
+    if t is dict: return {k: sub(val) for k, val in reversed(list(v.items()))}
+    if t is set: return set(reversed(sorted(v, key=lambda x: rng.random())))
+    if t is frozenset: return frozenset(sorted(v, key=lambda x: rng.random()))
+    if isinstance(v, T.frozendict): return T.frozendict(dict(reversed(list(v.items()))))
+    if isinstance(v, T.frozenmultiset):
+        L = list(v); rng.shuffle(L); return T.frozenmultiset(L)
+    if t is numpy.ndarray:
+        if v.ndim == 2 and rng.random() < .5: return numpy.asfortranarray(v) if v.flags.c_contiguous else numpy.ascontiguousarray(v)
+        w = numpy.empty(v.shape[:-1] + (2 * v.shape[-1],), dtype=v.dtype)[..., ::2] if v.ndim else numpy.empty((), dtype=v.dtype)
+        w[...] = v
+        return w
+    if isinstance(v, T.arraydata):
+        a = numpy.asarray(v)
+        if not a.size: return None
+        if a.dtype.kind == 'i' and a.size and abs(a).max() < 100: return T.arraydata(a.astype(rng.choice(['|i1', '<i2', '<i4', '<u8' if a.min() >= 0 else '<i4'])))
+        if a.dtype.kind == 'f' and a.size: return T.arraydata(a.astype('<f4')) if (a.astype('<f4') == a).all() else T.arraydata(a.tolist())
+        return T.arraydata(a.tolist())
+    if isinstance(v, T.Immutable) and t in (ImmA, ImmV1, SingA, SingB):
+        names = list(inspect.signature(t).parameters)
+        return t(**{n: sub(a) if _py_hashable(a) else a for n, a in zip(names, v._args)})
+    if isinstance(v, T.DataClass):
+        names = list(t.__signature__.parameters)
+        kw = {n: getattr(v, n) for n in names}
+        return t(**dict(reversed(list(kw.items()))))
+    if dataclasses.is_dataclass(v) and t in (StdDc, StdDc2): return t(y=sub(v.y), x=sub(v.x))
+    return None
+
+
 def _py_hashable(o):
     try: hash(o); return True
     except TypeError: return False
@@ -683,7 +728,8 @@ def run(c):
                       'supported domain excludes: same-named classes hashed by __name__ only (namedtuple/stdlib dataclass/plain type objects), '
                       'seekable buffered files (pos/content ambiguity), multiplicities >= 10000 in frozenmultiset, numpy longdouble, classes as values of Immutable subclasses',
                       'threads do not construct interned objects concurrently (the weak table is not locked)']
-    broken = c.build_and_audit()
+    # NVH_C17_SKIP_BUILD=1 is a development switch (mutation testing of the Python side only); never set by ./check
+    broken = [] if os.environ.get('NVH_C17_SKIP_BUILD') == '1' else c.build_and_audit()
     c.log('built and audited')
     quick = c.tier == 'quick'
     rng = c.rng
@@ -700,8 +746,16 @@ def run(c):
     for pr in builtin_corpus(rng):
         values += list(pr)
     base = [gen_value(rng, 3) for _ in range(NV)]
+    respelled = []
     for v in base:
         values.append(v)
+        if rng.random() < .35:
+            try:
+                w = respell(v, rng)
+            except Exception as e:
+                raise Infra('respell failed on %r: %r' % (v, e))
+            if w is not None:
+                respelled.append((len(values) - 1, len(values))); values.append(w)
         if rng.random() < (.5 if quick else .3):
             try:
                 vs = variants(v, rng, ctx)
@@ -720,7 +774,7 @@ def run(c):
     m = solver.LinesearchNewton(**la); ctx.alias(m, ('LinesearchNewton', m.strategy, m.failrelax, m.relax0, m.linargs)); meths.append(m)
     mm = solver.Minimize(**la); ctx.alias(mm, ('Minimize', mm.rampup, mm.rampdown, mm.failrelax, mm.linargs)); meths.append(mm)
     aliased = [hf1, hf2, uf, wc] + meths
-    values += aliased + [(hf1, 1), ImmA(hf1), ('hashable_function', 'ident-1')]
+    values += aliased + [(hf1, 1), ImmA(hf1), ('hashable_function', 'ident-1'), 'ident-1', ('ident', 2), script, script.encode(), ('Direct', la), la]
     nrng = random.Random(rng.random())
     npairs, nsingles, ndistinct = nutils_corpus(nrng)
     nut_values = [p[1] for p in npairs] + [p[2] for p in npairs] + nsingles + [d[1] for d in ndistinct] + [d[2] for d in ndistinct]
@@ -745,6 +799,7 @@ def run(c):
         i = rng.randrange(len(values)); j = rng.randrange(len(values)) if rng.random() < .5 else min(len(values) - 1, i + rng.randint(1, 3))
         pair_idx.append((i, j))
     pair_idx += [(2 * k, 2 * k + 1) for k in range(len(builtin_corpus(random.Random(0))))]
+    pair_idx += respelled[:100 if quick else 2000]
     add('pair', ['pair|%s|%s' % (toks[i], toks[j]) for i, j in pair_idx])
 
     # ------------------------------------------------------------ sha1 self-test of the Lean implementation (padding boundaries)
@@ -850,7 +905,7 @@ def run(c):
     c.count('distinct-hashes', len(by_hash)); c.count('distinct-keys', len(by_key))
     c.obligation('prop:no-collision', ncoll == 0, 'oracle', '%d supported values, %d distinct keys, pairwise' % (sum(map(len, by_hash.values())), len(by_key)))
     c.obligation('prop:same-key-same-hash', nunst == 0, 'oracle', '%d keys' % len(by_key))
-    if digest_broken and not c.violations:
+    if digest_broken and not any(v[2].startswith(('collision', 'route-dependent', 'supported-value-unhashable')) for v in c.violations):
         mm = c.extra.get('digest_mismatches', [{}])[0]
         c.broken_no_input('corr:nutils_hash-digest', 'model digest and real digest differ on %d values, no collision / instability found in the corpus' % digest_broken, mm)
 
@@ -976,7 +1031,10 @@ def run(c):
             nb += 1
             # oracle: values must survive (exact ints)
             c.extra.setdefault('canon_mismatch', []).append(dict(dtype=arr.dtype.str, values=arr.tolist(), model=a, real=out))
-        if out.startswith('ok'):
+        if out.startswith('ok') and numpy.asarray(ad).tolist() != arr.tolist():
+            nb += 1
+            c.failing_input('arraydata-changes-values', 'arraydata holds other integers than the array it was built from', dict(dtype=arr.dtype.str, values=arr.tolist(), stored=numpy.asarray(ad).tolist()))
+        elif out.startswith('ok'):
             same = T.arraydata(numpy.array(arr.tolist(), dtype='<i8').reshape(arr.shape)) if all(-2**63 <= int(x) < 2**63 for x in arr.reshape(-1).tolist()) else None
             if same is not None and (same is not ad or real_hash(same) != real_hash(ad)):
                 c.failing_input('arraydata-width-dependent', 'arraydata of the same integers in another integer width is a different value', dict(dtype=arr.dtype.str, values=arr.tolist()))
@@ -1283,6 +1341,12 @@ def intern_key_stream(c):
         res[first] = p.stdout.split()
     base = res['none']
     dep = {k: v for k, v in res.items() if v != base}
+    # the other direction: arguments that are hash-identical but not == (NaN objects) are not interned together
+    n1, n2 = float('nan'), float('nan')
+    d1, d2 = DcA(('nan-test', n1)), DcA(('nan-test', n2))
+    nan_split = d1 is not d2 and real_hash(d1) == real_hash(d2)
+    c.count('intern-key:nan-split' if nan_split else 'intern-key:nan-shared')
+    res['nan'] = ['DcA((.., nan)) is DcA((.., nan)) with two NaN objects: %s; equal hashes: %s' % (d1 is d2, real_hash(d1) == real_hash(d2))]
     c.count('intern-key:history-dependent' if dep else 'intern-key:history-independent')
     c.obligation('prop:hash-independent-of-construction-history', not dep, 'oracle',
                  'evaluable.Sinc(arg, 1) and a DataClass C(1), built after C(1.0) / C(True) or alone, in separate processes')
